@@ -136,7 +136,14 @@ def check_ext_numbering(ctx, w, fn):
             ok = True
             for (t, pol) in rel:
                 t2 = _subst_consts(t, cvals)
-                val = expr.partition(t2, field, [pt])[pt]
+                try:
+                    val = expr.partition(t2, field, [pt])[pt]
+                except AnalysisError as e:
+                    # the predicate on the count field drags another header field in: that is not the gABI decision (which
+                    # reads this one field), so it is a finding about the code, not a limit of the analyser
+                    ctx.ob('E-ii', construct, 'predicate on %s reads only %s' % (field, field), False, got=U(t), line=f.node.lineno,
+                           msg='the extended-numbering decision depends on another header field than the gABI escape (%s)' % e.why)
+                    return
                 if val != pol:
                     ok = False
                     break
